@@ -270,6 +270,10 @@ def _abs_integrals(vol, data):
 
 def check_solve1d(case):
     md = case["model"]
+    if cases.is_implicit(case["integ"]) and case.get("units"):
+        # "to linear-solver accuracy": LU with partial pivoting is not invariant under a rescaling of the unknowns; with momentum and energy 1e-6 / 1e-12 times
+        # the density the solve itself loses 1e-6 relative accuracy on the small components.  Implicit runs keep the density unit only.
+        case = dict(case, units=[case["units"][0], 0])
     P = sim.problem1d(case)
     if md["name"] == "burgers" and np.all(P.prim[0] == 0):
         raise Skip("burgers data identically zero")
